@@ -5,8 +5,8 @@ from . import lex, mon
 
 SPEC = {
     'rule': ('histories of 5-60 add_rule / delete_rule / add_dynamic_type / add_dynamic_type_item calls interleaved with evaluations, over a pool '
-             'of 10 rule specs (named NUMBER / TEXT / MONEY / PERCENT fields encoded into the returned number, two specs sharing a pattern, two '
-             'sharing a name, one declining, one for tr, one for an unknown language, one returning money) and 3 unit families (chains of 2-5 '
+             'of 13 rule specs (named NUMBER / TEXT / MONEY / PERCENT fields encoded into the returned number, two specs sharing a pattern, two '
+             'sharing a name, one declining, one for tr, one for an unknown language, one returning money, a word-group field and a Turkish operator word in patterns registered for tr) and 3 unit families (chains of 2-5 '
              'items with integer factors, duplicate family names and indices, an item for a missing family). Oracle: a model calculator '
              '(ordered surviving rules per language, families); return values and matching lines are judged against the model during the '
              'history, and after every history the calculator and a fresh one on which only the surviving registrations are replayed in '
@@ -29,6 +29,11 @@ RULES = {
     'H': {'lang': 'en', 'patterns': ['{NUMBER:count} {TEXT:coin:qoin}'], 'spec': {'name': 'r8', 'kind': 'money', 'value': 100, 'currency': 'usd', 'amount_field': 'count'}},
     'I': {'lang': 'en', 'patterns': ['glorp {TEXT:who}'], 'spec': {'name': 'r9', 'kind': 'encode', 'weights': {'who': 5}, 'text_codes': {'alice': 1, 'bob': 2}}},
     'J': {'lang': 'en', 'patterns': ['frob {PERCENT:p} {MONEY:m}'], 'spec': {'name': 'r10', 'kind': 'encode', 'weights': {'p': 1, 'm': 100}}},
+    # patterns whose tokens depend on the language the rule is registered for: a word-group field (hour_group is 'saat' in tr,
+    # 'hour'/'hours' in en) and a word that is an operator alias in tr only ('kere' = '*')
+    'K': {'lang': 'tr', 'patterns': ['{GROUP:label:hour_group} {NUMBER:n}'], 'spec': {'name': 'r11', 'kind': 'encode', 'weights': {'n': 60}}},
+    'L': {'lang': 'tr', 'patterns': ['{NUMBER:n} kere'], 'spec': {'name': 'r12', 'kind': 'encode', 'weights': {'n': 7}}},
+    'M': {'lang': 'en', 'patterns': ['{GROUP:label:hour_group} {NUMBER:n}'], 'spec': {'name': 'r11', 'kind': 'encode', 'weights': {'n': 61}}},
 }
 
 FAMILIES = {
@@ -51,11 +56,16 @@ def probes():
     out.append(('en', 'glorp alice', 'glorp {TEXT:who}', {'who': 'alice'}))
     out.append(('en', 'glorp Bob', 'glorp {TEXT:who}', {'who': 'bob'}))
     out.append(('en', 'frob 10% $5', 'frob {PERCENT:p} {MONEY:m}', {'p': 10, 'm': 5}))
+    out.append(('tr', 'saat 5', '{GROUP:label:hour_group} {NUMBER:n}', {'n': 5}))
+    out.append(('tr', '5 kere', '{NUMBER:n} kere', {'n': 5}))
+    out.append(('en', 'hours 5', '{GROUP:label:hour_group} {NUMBER:n}', {'n': 5}))
+    out.append(('en', 'hour 9', '{GROUP:label:hour_group} {NUMBER:n}', {'n': 9}))
     return out
 
 
 NEAR_MISSES = [('en', 'zork 3'), ('en', 'zork x y'), ('en', 'glorp 5'), ('en', 'blip'), ('en', '5 qoins'), ('en', 'frob 10% 5'), ('tr', '6 zork'), ('en', 'zork'),
-               ('en', 'zork 3 4 + 1'), ('en', '2 * blip 8')]
+               ('en', 'zork 3 4 + 1'), ('en', '2 * blip 8'),
+               ('en', 'saat 5'), ('tr', 'hours 5'), ('en', '5 kere'), ('tr', '5 saat')]
 
 
 class Model:
@@ -187,7 +197,7 @@ def run_shard(ctx):
                 hist.append('add_rule %s' % rid)
             elif r < 0.45:
                 lang = rng.choice(['en', 'en', 'tr', 'xx'])
-                name = rng.choice(['r1', 'r2', 'r3', 'r5', 'r6', 'r8', 'r9', 'r10', 'nope'])
+                name = rng.choice(['r1', 'r2', 'r3', 'r5', 'r6', 'r8', 'r9', 'r10', 'r11', 'r12', 'nope'])
                 want = model.delete_rule(lang, name)
                 ops.append({'op': 'delete_rule', 'lang': lang, 'name': name})
                 meta[len(ops) - 1] = ('ret', 'delete_rule(%s, %s)' % (lang, name), want)
